@@ -19,7 +19,9 @@ REGISTRATION = {
             "tied to the code on every run: synthetic GGUFs through the real WriteGGUF/Decode/GraphSize/GroupLayers, "
             "full MemoryEstimate (incl. unexported fields), EstimatedVRAMByGPU and PredictServerFit compared exactly "
             "with the oracle, boundaries of the estimator's comparisons found by bisection on the real code; the "
-            "real Scheduler.updateFreeSpace on generated GPU lists / loaded runners compared exactly; every clause "
+            "real Scheduler.updateFreeSpace on generated GPU lists / loaded runners compared exactly; the real "
+            "pickBestFullFitByLibrary / pickBestPartialFitByLibrary on generated inventories compared exactly "
+            "(returned ids in order + numParallel); every clause "
             "is also evaluated on the real results (estimator alone, and estimator on the scheduler-adjusted list).",
     "design_ref": "DESIGN.md §5 C16",
     "note": COMMON_NOTE + "Modelled, not verified: the quantities the estimator derives from the model file and "
@@ -54,6 +56,8 @@ THEOREMS = [
     "OllamaVerif.C16.byLibrary_partition",
     "OllamaVerif.C16.fit_all_only_if_placed",
     "OllamaVerif.C16.vramByGPU_is_planned_size",
+    "OllamaVerif.C16.full_fit_places_all",
+    "OllamaVerif.C16.pickPartial_is_group",
 ]
 # The code variant the model must mirror (0 = pinned overhead comparisons, 1 = with fix C16-W1) is detected
 # by the driver on every run by probing the real estimator with the W1 input; it is the first argument of
@@ -68,13 +72,15 @@ def run(ctx):
            "VERIF_CORPUS": os.path.join(core.ROOT, "corpus", "C16")}
     if ctx.replay:
         env["VERIF_REPLAY"] = ctx.replay_line_file()
-    sched_only = False
+    sched_only = pick_only = False
     if ctx.replay:
         try:
-            sched_only = '"kind":"sched"' in open(env["VERIF_REPLAY"]).read().replace(" ", "")
+            raw = open(env["VERIF_REPLAY"]).read().replace(" ", "")
+            sched_only = '"kind":"sched"' in raw
+            pick_only = '"kind":"pick"' in raw
         except OSError:
             pass
-    if not sched_only:
+    if not sched_only and not pick_only:
         rc, out, outdir = ctx.go_test("./llm/", OVERLAY, "^TestVerifC16$", env=env, timeout=1500)
         if rc != 0:
             ctx.violation("driver-failed", "", out[-1500:], no_input=True)
@@ -84,7 +90,7 @@ def run(ctx):
         ctx.l1(outdir)
         ctx.classify(ctx.l2(outdir))
     # scheduler side: the real Scheduler.updateFreeSpace + composition with the real estimator
-    if not ctx.replay or sched_only:
+    if (not ctx.replay or sched_only) and not pick_only:
         env2 = dict(env)
         env2["VERIF_N"] = ctx.scale(4000, 60000)
         rc, out, outdir = ctx.go_test("./server/", OVERLAY_SCHED, "^TestVerifC16Sched$", env=env2, timeout=1500)
@@ -92,6 +98,17 @@ def run(ctx):
             ctx.violation("driver-failed", "", out[-1500:], no_input=True)
         ctx.read_stats(outdir)
         ctx.l1(outdir, label="L1-sched")
+        ctx.classify(ctx.l2(outdir))
+    # scheduler's fit decisions: the real pickBestFullFitByLibrary / pickBestPartialFitByLibrary + the real
+    # estimator on the returned list
+    if not ctx.replay or pick_only:
+        env3 = dict(env)
+        env3["VERIF_N"] = ctx.scale(1500, 20000)
+        rc, out, outdir = ctx.go_test("./server/", OVERLAY_SCHED, "^TestVerifC16Pick$", env=env3, timeout=1500)
+        if rc != 0:
+            ctx.violation("driver-failed", "", out[-1500:], no_input=True)
+        ctx.read_stats(outdir)
+        ctx.l1(outdir, label="L1-pick")
         ctx.classify(ctx.l2(outdir))
     ctx.assumptions.append("derived inputs (GraphSize, tensor/KV sizes, projector requirements, overhead) are "
                            "recomputed by the driver with the functions the estimator calls; flash attention off")
@@ -106,7 +123,10 @@ def run(ctx):
              "estimator; a wrap-around stream (quantities near 2^64); up to 3 interleaved Library[_Variant] groups, "
              "repeated GPU IDs. Scheduler driver: 1-8 GPUs (repeated/empty IDs, same ID in two libraries, free > "
              "total), 0-4 loaded runners (nil llama, per-GPU predictions at total-free -1/0/+1, > total, wrapping "
-             "sums), composition with the real estimator on 3 synthetic models; distinct = distinct oracle command lines",
+             "sums), composition with the real estimator on 3 synthetic models. Pick driver: synthetic models (uneven "
+             "blocks, projectors) x inventories of 1-8 GPUs (mixed libraries, enumeration order != size order, ties) "
+             "x free memory in six modes scaled to the model's need x parallel auto/1/2 x spread x num_gpu classes; "
+             "distinct = distinct oracle command lines",
         explanation="Lean theorems about the executable model of EstimateGPULayers/PredictServerFit; model tied "
                     "to the code by exact comparison of the whole MemoryEstimate and fit result (L1) and every "
                     "property clause evaluated on the real estimate against the real GPU list (L2); same for "
